@@ -264,6 +264,8 @@ class C16(Prop):
             ops.append("multi seq=%s maxid=%s" % ("".join(rng.choice("pgb") for _ in range(rng.randrange(2, 5))), dbits(th[1])))
         ops.append("slink maxid=" + dbits(th[0]) + (" pre=1" if rng.random() < 0.3 else ""))
         ops.append("blosum maxid=" + dbits(th[rng.randrange(2)]))
+        if n > 255:      # everything linked: the stacks of the clustering routine hold more than 255 vertices at once
+            ops += ["slink maxid=" + dbits(0.0), "blosum maxid=" + dbits(0.0), "idfilter maxid=" + dbits(0.0)]
         ops.append("pb")
         if mode != "text":
             ft = rng.choice([0.5, 0.5, 0.0, 1.0, 0.3, 0.75, 0.9, rng.random()])
@@ -286,8 +288,8 @@ class C16(Prop):
         mode = mode or rng.choice(["text", "amino", "amino", "dna", "rna"])
         rows, rf = self.gen_alignment(rng, mode, nseq, alen)
         self._tally("mode", mode); self._tally("with_rf", rf is not None)
-        self._tally("nseq", "1" if nseq == 1 else "2-6" if nseq <= 6 else "7-30" if nseq <= 30 else "31-60" if nseq <= 60 else "61-300")
-        self._tally("alen", "1" if alen == 1 else "2-12" if alen <= 12 else "13-60" if alen <= 60 else "61-100" if alen <= 100 else "101-400")
+        self._tally("nseq", "1" if nseq == 1 else "2-6" if nseq <= 6 else "7-30" if nseq <= 30 else "31-60" if nseq <= 60 else "61-256" if nseq <= 256 else "257-300")
+        self._tally("alen", "1" if alen == 1 else "2-12" if alen <= 12 else "13-60" if alen <= 60 else "61-100" if alen <= 100 else "101-256" if alen <= 256 else "257-400")
         self._tally("duplicate_rows", len(set(map(tuple, rows))) < len(rows))
         self._tally("empty_rows", any(not any(Aln(mode).is_res(c) for c in r) for r in rows))
         aln = Aln(mode); aln.rows = rows; aln.rf = rf
@@ -385,6 +387,10 @@ class C16(Prop):
             elif r < 0.85: nseq, alen = rng.randrange(1, 31), rng.randrange(1, 61)
             else:          nseq, alen = rng.randrange(20, 61), rng.randrange(20, 101)
             out.append(self.one_case(rng, "aln%d" % c, nseq, alen))
+        # sizes beyond one byte, cheaply: many short rows / few long rows (both tiers)
+        for c in range(2 if quick else 10):
+            out.append(self.one_case(rng, "tall%d" % c, rng.randrange(257, 301), rng.randrange(2, 25)))
+            out.append(self.one_case(rng, "wide%d" % c, rng.randrange(2, 8), rng.randrange(257, 401)))
         if not quick:
             for c in range(120):
                 out.append(self.one_case(rng, "big%d" % c, rng.randrange(60, 301), rng.randrange(100, 401)))
